@@ -80,12 +80,22 @@ pub fn scenario(mode: &str, pool_size: u32, px: &str, py: &str, key: &str) -> Sc
     let stay = mode == "transaction";
     let x = program(0, px, stay).actor();
     let y = program(1, py, false).actor();
-    // Z connected earlier and is gone: its key is stale
-    let z = Script::new("z").connect("alice", "db", Some("alicepw")).q(&format!("SELECT 0 /*{}*/", tag(2, 0, 0))).terminate().actor();
+    // Z connected earlier and is gone: its key is stale. It left by Terminate, or ("stale-dropped") it
+    // vanished in the middle of a transaction, so that the pooler took the error exit
+    let z = if key == "stale-dropped" {
+        Script::new("z")
+            .connect("alice", "db", Some("alicepw"))
+            .q(&format!("BEGIN /*{}*/", tag(2, 0, 0)))
+            .q(&format!("SELECT 0 /*{}*/", tag(2, 0, 1)))
+            .close(crate::world::CloseKind::HardDrop)
+            .actor()
+    } else {
+        Script::new("z").connect("alice", "db", Some("alicepw")).q(&format!("SELECT 0 /*{}*/", tag(2, 0, 0))).terminate().actor()
+    };
     let (ck, pre): (CancelKey, Vec<Step>) = match key {
         "x" => (CancelKey::OfClient(0), vec![Step::Wait(Cond::ActorAt(0, 1))]),
         "y" => (CancelKey::OfClient(1), vec![Step::Wait(Cond::ActorAt(1, 1))]),
-        "stale" => (CancelKey::StaleOfClient(2), vec![Step::Wait(Cond::ActorsDone(vec![2]))]),
+        "stale" | "stale-dropped" => (CancelKey::StaleOfClient(2), vec![Step::Wait(Cond::ActorsDone(vec![2]))]),
         "random" => (CancelKey::Raw(123456, 654321), vec![]),
         "pid-only" => (CancelKey::PidOnly(0), vec![Step::Wait(Cond::ActorAt(0, 1))]),
         _ => panic!("key"),
@@ -145,7 +155,7 @@ pub fn reload_scenario(pool_size: u32, px: &str, key: &str, changed: &str) -> Sc
 /// The hold begins with the parameter sync (`SET <tracked> TO ..`) the pooler runs on the borrowed server
 /// right before the client's first statement: those control queries are attributed to the client whose
 /// statement follows them on that connection.
-fn held_conn(log: &[crate::mockpg::Entry], c: usize, s: usize, session: bool) -> Option<usize> {
+fn held_conn(log: &[crate::mockpg::Entry], c: usize, s: usize, session: bool, until_pooler_lets_go: bool) -> Option<usize> {
     // (conn, owner, from_seq, to_seq)
     let mut intervals: Vec<(usize, usize, usize, usize)> = Vec::new();
     let mut open: std::collections::BTreeMap<usize, (usize, usize)> = std::collections::BTreeMap::new(); // conn -> (owner, from)
@@ -192,7 +202,9 @@ fn held_conn(log: &[crate::mockpg::Entry], c: usize, s: usize, session: bool) ->
                 close_owner(&mut open, &mut intervals, *conn, e.seq);
                 sync_start.remove(conn);
             }
-            Rec::CClosed { c: cc, .. } | Rec::CEof { c: cc } => {
+            // (a client that vanished: the pooler, and the server, still have its transaction open until the
+            // pooler notices and rolls back; until then the session is nobody else's)
+            Rec::CClosed { c: cc, .. } | Rec::CEof { c: cc } if !until_pooler_lets_go => {
                 let conns: Vec<usize> = open.iter().filter(|(_, (o, _))| o == cc).map(|(k, _)| *k).collect();
                 for k in conns {
                     close_owner(&mut open, &mut intervals, k, e.seq);
@@ -242,9 +254,10 @@ pub fn oracle(sc: &Scenario, out: &Outcome) -> Vec<Violation> {
     let owner = match key {
         "x" => Some(0usize),
         "y" => Some(1usize),
+        "stale-dropped" => Some(2usize),
         _ => None,
     };
-    let allowed: Option<usize> = owner.and_then(|o| held_conn(log, o, s, session));
+    let allowed: Option<usize> = owner.and_then(|o| held_conn(log, o, s, session, key == "stale-dropped"));
     for (seq, server, pid, k) in &cancels {
         match allowed {
             None => vs.push(v(
@@ -274,7 +287,7 @@ pub fn oracle(sc: &Scenario, out: &Outcome) -> Vec<Violation> {
         }
     }
     if let Some(conn) = allowed {
-        if cancels.is_empty() && !out.blocked {
+        if cancels.is_empty() && !out.blocked && key != "stale-dropped" {
             // the requester was running on `conn`: its cancel should have been forwarded
             vs.push(v(
                 "C10.cancel-lost",
@@ -295,8 +308,8 @@ pub fn build(tier: &str) -> SimCheck {
             for px in xs {
                 let ys: Vec<&str> = if thorough { vec!["txn2", "auto", "ext"] } else { vec!["txn2"] };
                 for py in ys {
-                    for key in ["x", "y", "stale", "random", "pid-only"] {
-                        if !thorough && px != "txn2" && !(key == "x" || key == "stale") {
+                    for key in ["x", "y", "stale", "stale-dropped", "random", "pid-only"] {
+                        if !thorough && px != "txn2" && !(key == "x" || key == "stale" || key == "stale-dropped") {
                             continue;
                         }
                         scenarios.push(scenario(mode, pool_size, px, py, key));
@@ -331,7 +344,7 @@ pub fn build(tier: &str) -> SimCheck {
         oracle: Box::new(oracle),
         bound: 2,
         limits: Limits { max_wall_s: if thorough { 1500.0 } else { 55.0 }, ..Default::default() },
-        rule: "scenario = pool mode x pool_size {1,2} x program of X (two transactions, COPY in + CopyDone/CopyFail, extended batch, idle-in-transaction timeout, autocommit; X stays connected) x program of Y x cancel key (X's, Y's, stale key of a departed client, random, right pid wrong secret); also with a RELOAD that changes another pool / X's own pool placed anywhere; backend replies gated so statements are genuinely running; the cancel event placed at every point of every interleaving with <= 2 deviations".into(),
+        rule: "scenario = pool mode x pool_size {1,2} x program of X (two transactions, COPY in + CopyDone/CopyFail, extended batch, idle-in-transaction timeout, autocommit; X stays connected) x program of Y x cancel key (X's, Y's, stale key of a client that left by Terminate / that vanished inside a transaction, random, right pid wrong secret); also with a RELOAD that changes another pool / X's own pool placed anywhere; backend replies gated so statements are genuinely running; the cancel event placed at every point of every interleaving with <= 2 deviations".into(),
         assumptions: vec!["ownership interval of a server session judged at quiescent instants from the reference backend's log (first statement of a transaction .. delivery of the ReadyForQuery(idle) that ends it)".into()],
     }
 }
